@@ -257,7 +257,9 @@ func (s *sysB) enabled() []int {
 	}
 	for i := 1; i < len(w.parents); i++ {
 		p := w.parents[i]
-		if !s.bDone[i] && (p == 0 || s.bDone[p]) {
+		// blocks parents-first, or while the parent is known by its header only
+		// (the block then waits in the orphan pool until the parent's block comes)
+		if !s.bDone[i] && (p == 0 || s.bDone[p] || s.hDone[p]) {
 			out = append(out, 2*(i-1)+1)
 		}
 	}
